@@ -19,7 +19,12 @@ func (p *watPrinter) printExport() error {
 				p.indent, e.Name, watPrinter_identOrIndex(e.GlobalIdx),
 			)
 		case token.FUNC:
-			// skip
+			// 函数定义处内联的导出已经随函数打印, 这里只打印独立的导出
+			if !p.isInlineFuncExport(e.Name) {
+				fmt.Fprintf(p.w, `%s(export "%s" (func %s))`+"\n",
+					p.indent, e.Name, watPrinter_identOrIndex(e.FuncIdx),
+				)
+			}
 		case token.MEMORY:
 			fmt.Fprintf(p.w, `%s(export "%s" (memory %s))`+"\n",
 				p.indent, e.Name, watPrinter_identOrIndex(e.MemoryIdx),
@@ -33,4 +38,13 @@ func (p *watPrinter) printExport() error {
 		}
 	}
 	return nil
+}
+
+func (p *watPrinter) isInlineFuncExport(exportName string) bool {
+	for _, fn := range p.m.Funcs {
+		if fn.ExportName == exportName {
+			return true
+		}
+	}
+	return false
 }
